@@ -64,10 +64,28 @@ def pValList : P (List Val) := do
   | .list l => pure l
   | _ => throw "expected a list value"
 
-/-- `SCAN seq now | dump | fam key pat ty pageSize | cursor-loop result | iterator result` -/
+/-- what a scan depends on: key ids, names, types, lengths, and the child rows with their rowids -/
+def shape (db : DB) : List (Int × Bytes × Int × Option Int) × List SetRow × List HashRow × List ZRow :=
+  let c := canon db
+  (c.keys.map (fun r => (r.id, r.key, r.ty, r.len)), c.sets, c.hashes, c.zsets)
+
+/-- the tables the model of the code builds from an empty database by the recorded history -/
+def replay (hist : String) : Except String DB :=
+  let opStrs := if hist.trimAscii.toString.isEmpty || hist.trimAscii.toString == "-" then [] else hist.splitOn " ;; "
+  opStrs.foldlM (fun (db : DB) s =>
+    match runP (do let t ← pInt; let o ← pOp; pure (t, o)) s with
+    | .ok (t, o) => .ok (Model.dbRun o t db).db
+    | .error e => .error e) ({} : DB)
+
+/-- `SCAN seq now | dump | fam key pat ty pageSize | cursor-loop result | iterator result [| history]`.
+`K` (the D10 classifier: the rowids of the matching rows are not increasing along the index the
+statement walks) is decided on the tables the MODEL builds from the recorded history, so a change
+in how the code assigns rowids is not absorbed by the classifier; `B` says whether those tables
+are the dumped ones (as far as a scan can tell). -/
 def judge (line : String) : String :=
-  match line.splitOn " | " with
-  | [hdr, preS, reqS, loopS, iterS] =>
+  let parts := line.splitOn " | "
+  match parts.take 5, parts.drop 5 with
+  | [hdr, preS, reqS, loopS, iterS], rest =>
     match (hdr.splitOn " ").filter (· ≠ "") with
     | [_, seq, nowS] =>
       match nowS.toInt?, runP pDump preS, runP pReq reqS, runP pValList loopS, runP pValList iterS with
@@ -75,8 +93,13 @@ def judge (line : String) : String :=
         let (model, all, ids) := expected q now db
         let m := model == loopRes && model == iterRes
         let s := isPermB loopRes all && isPermB iterRes all
-        let k := if q.fam != "key" && !increasing ids then "D10" else ""
-        s!"{seq} M={if m then 1 else 0} S={if s then 1 else 0} K={k} n={all.length}" ++
+        let (bv, kids) := match rest with
+          | [hist] => (match replay hist with
+            | .ok mdb => ((if decide (shape mdb = shape db) then "1" else "0"), (expected q now mdb).2.2)
+            | .error _ => ("E", ids))
+          | _ => ("-", ids)
+        let k := if q.fam != "key" && !increasing kids then "D10" else ""
+        s!"{seq} M={if m then 1 else 0} S={if s then 1 else 0} B={bv} K={k} n={all.length}" ++
           (if m then "" else s!" model= {showVal (.list model)}")
       | _, .error e, _, _, _ => s!"{seq} ERR pre: {e}"
       | _, _, .error e, _, _ => s!"{seq} ERR req: {e}"
@@ -84,6 +107,6 @@ def judge (line : String) : String :=
       | _, _, _, _, .error e => s!"{seq} ERR iter: {e}"
       | none, _, _, _, _ => s!"{seq} ERR now"
     | _ => "? ERR bad scan header"
-  | parts => s!"? ERR bad scan line ({parts.length} parts)"
+  | _, _ => s!"? ERR bad scan line ({parts.length} parts)"
 
 end Redka.ScanJudge
